@@ -400,7 +400,7 @@ def run(ctx):
     ctx.pmap(case_tone, cases)
     red = []
     for N in (1, 2, 4, 8):
-        for I in (1, 2, 4, 8):
+        for I in (1, 2, 4, 8, 3, 5):         # 3, 5: the fine spectra are not a whole number of integrations (the rest is dropped)
             for nc in (1, 3):
                 for directio in (0, 1):
                     red.append(dict(N=N, I=I, nc=nc, T=64, directio=directio, seed=ctx.seed))
@@ -423,7 +423,7 @@ def run(ctx):
         rule='complete box of (sample_rate, branches) x channel window x orientation x fch1 x polarisation placement x recorded '
              'coarse channel (DC channel excluded) x fine-bin offset {-N/2+2, -5, -2.63, -1, 0.37, 1, 5, N/2-2} x drift (fine bins '
              'per fine spectrum) x digitiser, one noise-free recording each, peak located through the file\'s own header; plus the '
-             'reducers for every (fftlength, int_factor) in {1,2,4,8}^2.  Every tone case is non-trivial (distinct tuple; the peak '
+             'reducers for every (fftlength, int_factor) in {1,2,4,8} x {1,2,3,4,5,8}.  Every tone case is non-trivial (distinct tuple; the peak '
              'must be found in one of >= 16 bins x channels); reducer cases are non-trivial when fftlength != int_factor',
         assumptions=['tones within N/2-2 fine bins of the coarse centre (closer to the channel edge the neighbour channel carries '
                      'an alias of comparable power, which the property\'s "within one fine bin" does not disambiguate)',
